@@ -407,3 +407,43 @@ func (g *Gen) addMapRangeDemo() *S {
 	p.Funcs = append([]*Func{{Name: name, Results: []*Ty{TInt}, Body: body}}, p.Funcs...)
 	return pr(sS("maprange"), &E{K: "call", Fn: name, Ty: TInt, NRes: 1})
 }
+
+// addTypedStoresDemo: an untyped constant stored into a field / map entry / slice element / package-level variable of a
+// narrow integer type takes that type whatever route stores it (local variable, parameter, method receiver, alias, nested
+// selector): operating on it afterwards wraps like the declared type.
+func (g *Gen) addTypedStoresDemo() *S {
+	r := g.r
+	p := g.prog
+	tag := fmt.Sprintf("%d", len(p.Funcs))
+	et := []*Ty{TUint8, TInt8, TUint32}[r.Intn(3)]
+	big := map[string]int64{"uint8": 200, "int8": 100, "uint32": 4000000000}[et.K]
+	step := map[string]int64{"uint8": 100, "int8": 100, "uint32": 500000000}[et.K]
+	sn := "TS" + tag
+	pt := PtrTo(sn)
+	p.Structs = append(p.Structs, &StructDef{Name: sn, Fields: []string{"N", "V", "Next"}, FTypes: []*Ty{TInt, et, pt}})
+	gv := "GTS" + tag
+	p.Globals = append(p.Globals, &S{K: "declzero", Names: []string{gv}, DeclTy: et, Global: true})
+	f := func(x *E) *E { return fld(x, "V", et) }
+	bump := func(l *E) *S { return &S{K: "opassign", Lhs: []*E{l}, Op: "+", E: lit(et, step)} }
+	setFn := &Func{Name: "setV" + tag, Params: []string{"q"}, PTypes: []*Ty{pt}, Body: []*S{asg(f(v("q", pt)), lit(et, big))}}
+	setM := &Func{Name: sn + ".Set", Recv: "t", RecvTy: sn, Body: []*S{asg(f(v("t", pt)), lit(et, big)), bump(f(v("t", pt)))}}
+	mt := MapOf(TString, et)
+	mg := func(m string) *E { return &E{K: "mapget", Ty: et, X: v(m, mt), I: sS("k")} }
+	blocks := [][]*S{
+		{dcl("a", newS(sn)), asg(f(v("a", pt)), lit(et, big)), bump(f(v("a", pt))), pr(sS("local"), f(v("a", pt)))},
+		{dcl("b", newS(sn)), {K: "expr", E: &E{K: "call", Fn: setFn.Name, NRes: 0, Args: []*E{v("b", pt)}}}, bump(f(v("b", pt))), pr(sS("param"), f(v("b", pt)))},
+		{dcl("c", newS(sn)), {K: "expr", E: mc(v("c", pt), "Set", nil)}, pr(sS("method"), f(v("c", pt)))},
+		{dcl("d", newS(sn)), dcl("d2", v("d", pt)), asg(f(v("d2", pt)), lit(et, big)), bump(f(v("d", pt))), pr(sS("alias"), f(v("d", pt)), f(v("d2", pt)))},
+		{dcl("e", newS(sn, "Next", newS(sn))), asg(f(fld(v("e", pt), "Next", pt)), lit(et, big)), bump(f(fld(v("e", pt), "Next", pt))), pr(sS("nested"), f(fld(v("e", pt), "Next", pt)))},
+		{dcl("m", &E{K: "makemap", Ty: mt}), asg(mg("m"), lit(et, big)), bump(mg("m")), pr(sS("map"), mg("m"))},
+		{asg(&E{K: "var", Ty: et, Name: gv, Global: true}, lit(et, big)), bump(&E{K: "var", Ty: et, Name: gv, Global: true}), pr(sS("global"), &E{K: "var", Ty: et, Name: gv, Global: true})},
+		{dcl("h", newS(sn)), {K: "assign", Lhs: []*E{fld(v("h", pt), "N", TInt), f(v("h", pt))}, Exprs: []*E{lit(TInt, 3), lit(et, big)}}, bump(f(v("h", pt))), pr(sS("tuple"), fld(v("h", pt), "N", TInt), f(v("h", pt)))},
+	}
+	var body []*S
+	for _, k := range r.Perm(len(blocks))[:3+r.Intn(4)] {
+		body = append(body, blocks[k]...)
+	}
+	name := "typedStores" + tag
+	p.Funcs = append([]*Func{{Name: name, Body: body}, setFn, setM}, p.Funcs...)
+	return &S{K: "expr", E: &E{K: "call", Fn: name, NRes: 0}}
+}
